@@ -266,7 +266,48 @@ func (g *Gen) pattern() []Event {
 	hasPos := bal.IsPositive()
 	switch g.family {
 	case "redeleg", "shares", "unbond", "full", "genesis":
-		switch g.r.Intn(5) {
+		switch g.r.Intn(7) {
+		case 5: // a validator that has left the active set (jailed, status updated) is slashed for an earlier infraction (C06 C07 C08)
+			if !hasPos {
+				return nil
+			}
+			evs := []Event{{Ev: "RealSlash", V: v, F: g.fraction(), Jail: true}}
+			evs = append(evs, endOfBlock()...)
+			evs = append(evs, block(1, Event{Ev: "SlashHook", V: v, F: g.fraction()}, Event{Ev: "Undelegate", D: d, V: v, A: a, X: frac(bal, 1, 3)})...)
+			evs = append(evs, block(1, Event{Ev: "Unjail", V: v})...)
+			return evs
+		case 6: // one delegator leaves two denoms of one validator in one block (one bucket, two index keys), export/import, slash, maturity (C18 C02 C07 C20)
+			if !hasPos {
+				return nil
+			}
+			var evs []Event
+			for _, as := range g.w.App.AllianceKeeper.GetAllAssets(g.w.Ctx) {
+				if as.Denom != a {
+					evs = append(evs, Event{Ev: "Delegate", D: d, V: v, A: as.Denom, X: g.amount()})
+				}
+			}
+			evs = append(evs, endOfBlock()...)
+			var und []Event
+			for _, as := range g.w.App.AllianceKeeper.GetAllAssets(g.w.Ctx) {
+				und = append(und, Event{Ev: "Undelegate", D: d, V: v, A: as.Denom, X: "1"})
+			}
+			und = append(und, Event{Ev: "Undelegate", D: d, V: v, A: a, X: frac(bal, 1, 4)})
+			evs = append(evs, block(1, und...)...)
+			imp := "SlashHook"
+			if g.family == "genesis" {
+				imp = pick(g.r, []string{"ExportImport", "ForkImport"})
+			}
+			if imp == "SlashHook" {
+				evs = append(evs, block(1, Event{Ev: "SlashHook", V: v, F: g.fraction()})...)
+			} else {
+				evs = append(evs, block(1, Event{Ev: imp}, Event{Ev: "SlashHook", V: v, F: g.fraction()})...)
+			}
+			if U > 1 {
+				evs = append(evs, block(U-1)...)
+			}
+			evs = append(evs, block(1)...)
+			evs = append(evs, block(1)...)
+			return evs
 		case 0: // redelegate, destination slashed, destination partly withdrawn, source slashed (C07 C08)
 			if !hasPos {
 				return nil
@@ -349,6 +390,31 @@ func (g *Gen) pattern() []Event {
 			}
 		}
 	case "rewards":
+		if g.big && g.r.Intn(3) == 0 {
+			// a validator whose share of every asset drops to a few 10^-18 (whales arrive elsewhere in the block in which it
+			// still has rewards pending through the module's stake): with weights below one its staked reward weights
+			// truncate to zero (boundary of AddAssetsToRewardPool, fix K11)
+			ov := g.otherVal(v)
+			dd := g.dname()
+			k := int64(1 + g.r.Intn(3))
+			assets := g.w.App.AllianceKeeper.GetAllAssets(g.w.Ctx)
+			var evs []Event
+			for _, as := range assets {
+				evs = append(evs, Event{Ev: "Delegate", D: dd, V: v, A: as.Denom, X: fmt.Sprintf("%d", k*1000000)})
+			}
+			evs = append(evs, endOfBlock()...)
+			evs = append(evs, block(1)...)
+			evs = append(evs, block(1)...)
+			blk := []Event{{Ev: "Accrue", V: v, Coins: []Amt{{BondDenom, "1000000000000000000000000"}}}}
+			wd := g.dname()
+			for _, as := range assets {
+				blk = append(blk, Event{Ev: "Delegate", D: wd, V: ov, A: as.Denom, X: "1000000000000000000000000"})
+			}
+			for _, as := range assets {
+				blk = append(blk, Event{Ev: "Claim", D: dd, V: v, A: as.Denom})
+			}
+			return append(evs, block(1, blk...)...)
+		}
 		switch g.r.Intn(3) {
 		case 0: // a dust position next to a large one: tiny rewards, top-up, rewards again, everybody claims (C12 C13)
 			dd := g.dname()
@@ -382,7 +448,41 @@ func (g *Gen) pattern() []Event {
 	case "power":
 		// quiet blocks: nothing but a validator coming back / native stake moving, then blocks in which nothing happens (C10)
 		evs := endOfBlock()
-		switch g.r.Intn(3) {
+		switch g.r.Intn(5) {
+		case 4:
+			// a validator with native delegators is slashed for real (exchange rate != 1), then every alliance position leaves it:
+			// the rebalancer must take the module's whole (fractional) stake off it
+			vv := g.vname()
+			first := []Event{{Ev: "NativeDelegate", D: g.dname(), V: vv, X: pick(g.r, []string{"1000003", "2500001", "777777"})}, {Ev: "RealSlash", V: vv, F: g.fraction()}}
+			evs = append(evs, block(1, first...)...)
+			var out []Event
+			for _, p := range g.w.positions(g.w.Ctx) {
+				if g.w.Name(p.v.String()) == vv && p.balOk && p.bal.IsPositive() {
+					out = append(out, Event{Ev: "Undelegate", D: g.w.Name(p.d.String()), V: vv, A: p.a, X: "bal"})
+				}
+			}
+			evs = append(evs, block(1, out...)...)
+			evs = append(evs, block(1)...)
+			return evs
+		case 3:
+			// the operator of a validator withdraws the whole self-delegation: the validator is jailed, leaves the bonded set and -
+			// when nothing else is staked on it natively and the module holds no stake there (only warm-up stake, or none) -
+			// is removed by x/staking once its unbonding has matured (AfterValidatorRemoved; K13 when positions remain on it)
+			i := g.r.Intn(len(g.w.Vals))
+			vn := fmt.Sprintf("v%d", i)
+			var first []Event
+			for _, as := range g.w.App.AllianceKeeper.GetAllAssets(g.w.Ctx) {
+				if !as.RewardsStarted(g.w.Ctx.BlockTime()) && g.r.Intn(2) == 0 {
+					first = append(first, Event{Ev: "Delegate", D: g.dname(), V: vn, A: as.Denom, X: g.amount()})
+				}
+			}
+			first = append(first, Event{Ev: "NativeUndelegate", D: fmt.Sprintf("op%d", i), V: vn, X: "all"})
+			evs = append(evs, block(1, first...)...)
+			evs = append(evs, block(U)...)
+			evs = append(evs, block(1)...)
+			d, v, a, b := g.position()
+			evs = append(evs, block(1, Event{Ev: "Undelegate", D: d, V: v, A: a, X: g.partOf(b)})...)
+			return evs
 		case 0:
 			evs = append(evs, block(1, Event{Ev: "Unjail", V: g.vname()})...)
 		case 1:
@@ -430,6 +530,28 @@ func (g *Gen) next() Event {
 			return Event{Ev: "Claim", D: d, V: v, A: a}
 		}},
 	}
+	// malformed or pointless requests (unknown validator or denom, zero amount, nothing to claim): must be refused without effect
+	opts = append(opts, weighted{2, func() Event {
+		d, v, a, _ := g.position()
+		switch g.r.Intn(8) {
+		case 0:
+			return Event{Ev: "Delegate", D: d, V: "vx", A: g.aname(), X: g.amount()}
+		case 1:
+			return Event{Ev: "Delegate", D: d, V: g.vname(), A: "nope", X: "5"}
+		case 2:
+			return Event{Ev: "Delegate", D: d, V: g.vname(), A: g.aname(), X: "0"}
+		case 3:
+			return Event{Ev: "Undelegate", D: d, V: v, A: a, X: "0"}
+		case 4:
+			return Event{Ev: "Undelegate", D: d, V: "vx", A: a, X: "1"}
+		case 5:
+			return Event{Ev: "Redelegate", D: d, Src: v, Dst: "vx", A: a, X: "1"}
+		case 6:
+			return Event{Ev: "Redelegate", D: d, Src: v, Dst: g.otherVal(v), A: a, X: "0"}
+		default:
+			return Event{Ev: "Claim", D: g.dname(), V: pick(g.r, []string{"vx", g.vname()}), A: pick(g.r, []string{"nope", g.aname()})}
+		}
+	}})
 	slashW, accrueW, nativeW, govW, donateW, realSlashW := 4, 0, 0, 0, 0, 0
 	switch fam {
 	case "unbond":
@@ -639,13 +761,13 @@ func RunSchedule(w *World, s *Schedule, tw *TraceWriter, gen *Gen, n int) {
 			if i >= n {
 				break
 			}
-			e = gen.Next()
+			e = w.resolve(gen.Next())
 			s.Events = append(s.Events, e)
 		} else {
 			if i >= len(s.Events) {
 				break
 			}
-			e = s.Events[i]
+			e = w.resolve(s.Events[i])
 		}
 		i++
 		if e.Branch {
